@@ -59,10 +59,12 @@ func Verif_C14_SemverSplit() {
 			v.Store("semver.next", errNotSemver)
 		}
 	}
+	// explicit components are the user's words: they need not be valid semver
+	// identifiers (underscore, '~', a numeric identifier with a leading zero)
 	explicitPre := v.NondetStringRange("explicit.pre", 0, 2)
-	v.Assume(v.AllIn(explicitPre, "a-z"))
+	v.Assume(v.AllIn(explicitPre, "a-z0-9_~"))
 	explicitMeta := v.NondetStringRange("explicit.meta", 0, 1)
-	v.Assume(v.AllIn(explicitMeta, "a-z"))
+	v.Assume(v.AllIn(explicitMeta, "a-z_"))
 	schema := []string{"", "semver", "none"}[v.NondetChoice("schema", 3)]
 	info := &Info{Name: "n", Arch: "amd64", Version: vstr, Prerelease: explicitPre, VersionMetadata: explicitMeta, VersionSchema: schema}
 	WithDefaults(info)
